@@ -159,8 +159,10 @@ async def run_history(acc, clock, role, start, syms, cid):
                     key = "R1:app-below-expected-delivered-while-awaiting"
                 elif rule == "R2" and t == "gf" and s != Eb and detail == "gapfill-own-number-ignored" and Ea == new and new > Eb:
                     key = "R2:gapfill-own-number-ignored"
-                elif rule == "R2" and t in ("gf", "rs") and detail == "expected-number-moved-backwards" and Ea == new and new < Eb:
+                elif rule == "R2" and t == "rs" and detail == "expected-number-moved-backwards" and Ea == new and new < Eb:
                     key = "R2:backward-sequence-reset-honoured"
+                elif rule == "R2" and t == "gf" and detail == "expected-number-moved-backwards" and Ea == new and new < Eb:
+                    key = "R2:backward-gapfill-honoured"
                 elif rule == "R3" and detail == "still-awaiting-after-gap-closed" and t in ("gf", "rs"):
                     key = "R3:still-awaiting-after-reset-passed-the-gap"
                 acc.violation(key, what, w, cid)
